@@ -2,6 +2,7 @@
 use crate::model::{hex, Model};
 use crate::report::{fnv_str, Report};
 use crate::rng::Rng;
+use crate::run::{Cmd, Sandbox};
 use crate::Ctx;
 use serde_json::json;
 
@@ -28,9 +29,10 @@ fn case_variant(rng: &mut Rng, s: &str) -> String {
 fn parse_spec(text: &str) -> Option<Result<u64, ()>> {
   let digits: String = text.chars().take_while(|c| c.is_ascii_digit() || *c == '.').collect();
   let suffix: String = text.chars().skip_while(|c| c.is_ascii_digit() || *c == '.').collect();
-  // (letters outside ASCII whose case mappings land on a unit letter - the Kelvin sign, a dotless i - are not pinned:
-  // "any letter case" can be read either way for them; such inputs only must not crash)
-  if !suffix.is_ascii() {
+  // Letters outside ASCII: a suffix that lower-cases to a unit (the Kelvin sign for `k`) is not pinned - the code takes
+  // it, a strict reading of "any letter case" would not; every other suffix is "any other suffix" and must be rejected
+  // (a dotless `ı` or a long `ſ` is not a way of writing `i` or `s`, although upper-casing them gives `I` and `S`).
+  if !suffix.is_ascii() && UNITS.iter().any(|(u, _)| *u == suffix.to_lowercase()) {
     return None;
   }
   let mult = UNITS.iter().find(|(u, _)| *u == suffix.to_ascii_lowercase()).map(|(_, k)| *k);
@@ -337,5 +339,29 @@ pub fn run(ctx: &Ctx) -> Report {
     }
   }
   report.model_requests = model.requests;
+  // ---- the size argument where it is used: `create --piece-length TEXT`, content from a file and from standard input
+  if ctx.replay.is_none() || super::replay_cases(ctx).map(|rc| rc.iter().any(|v| v.get("create_piece_length").is_some())).unwrap_or(false) {
+    for text in ["32kib", "0.5mib", "16384", "1MiB", "65536b", "131072bytes", "0.25MIB", "2048KiB"] {
+      for via in ["file", "stdin"] {
+        let sb = Sandbox::new(&ctx.work, "c16c");
+        sb.write("content", b"hello");
+        let mut args = vec!["torrent", "create", "--output", "o.torrent", "--piece-length", text, "--input"];
+        if via == "stdin" { args.extend(["-", "--name", "content"]) } else { args.push("content") }
+        let mut cmd = Cmd::new(&ctx.imdl, &args).cwd(&sb.root);
+        if via == "stdin" {
+          cmd = cmd.stdin(b"hello");
+        }
+        let out = cmd.run();
+        let case = json!({"create_piece_length": text, "content_from": via});
+        report.case(Some(fnv_str(&case.to_string())));
+        report.hit("cli:create-piece-length");
+        let got = std::fs::read(sb.path("o.torrent")).ok().and_then(|t| crate::bencode::decode(&t).ok()).and_then(|v| v.get("info").and_then(|i| i.get("piece length")).and_then(|p| p.as_int()));
+        let want = match parse_spec(text) { Some(Ok(w)) => w as i128, _ => continue };
+        if !out.ok() || got != Some(want) {
+          report.fail("property", "bytes-parse", case, format!("`--piece-length {text}` denotes {want}; exit {:?}, the torrent records {got:?}", out.code));
+        }
+      }
+    }
+  }
   report
 }
